@@ -115,6 +115,15 @@ struct Task {
   int has_rel_fence;
   uint32_t rel_fence_vc[kClockN];
   uint32_t acq_pending_vc[kClockN];
+  // threads created by the code under test (std::thread / std::async inside an operation)
+  int dynamic;
+  void* (*ufn)(void*);
+  void* uarg;
+  void* uret;
+  int parent;
+  int detached;  // pthread_detach was called on it
+  int exit_gate; // futex word: the real thread leaves only while its joiner holds the baton and waits for it
+  int reaped;    // joined (or detached and finished): the slot may serve a later thread
 };
 
 enum SKind : int { SK_ATOMIC = 0, SK_MUTEX = 1, SK_GUARD = 2, SK_ONCE = 3 };
@@ -217,6 +226,7 @@ constexpr size_t kWsCap = 1u << 16;
 // real functions
 typedef int (*pthread_create_t)(pthread_t*, const pthread_attr_t*, void* (*)(void*), void*);
 typedef int (*pthread_join_t)(pthread_t, void**);
+typedef int (*pthread_detach_t)(pthread_t);
 typedef int (*mutex_fn_t)(pthread_mutex_t*);
 typedef int (*once_t)(pthread_once_t*, void (*)(void));
 typedef int (*cond_wait_t)(pthread_cond_t*, pthread_mutex_t*);
@@ -229,6 +239,7 @@ typedef int (*sched_yield_t)(void);
 
 pthread_create_t real_pthread_create;
 pthread_join_t real_pthread_join;
+pthread_detach_t real_pthread_detach;
 mutex_fn_t real_mutex_lock, real_mutex_unlock, real_mutex_trylock;
 once_t real_once;
 cond_wait_t real_cond_wait;
@@ -464,6 +475,22 @@ void forced_switch(Task* t, int cause) {
     for (int i = 0; i < g.ntasks; ++i)
       if (g.tasks[i].state != T_DONE) all_done = false;
     if (all_done) return;  // caller handles completion
+    // every caller thread has finished and what is left are threads the code under test created and
+    // left waiting (the workers of a pool): the run is complete, not deadlocked
+    bool callers_done = true;
+    int waiting = 0;
+    for (int i = 0; i < g.ntasks; ++i) {
+      if (g.tasks[i].state == T_DONE) continue;
+      if (g.tasks[i].dynamic) waiting++;
+      else callers_done = false;
+    }
+    if (callers_done) {
+      g.res->daemon_threads = (uint64_t)waiting;
+      g.active = 0;
+      unpark(&g.ctl_wake);
+      if (cause == 2) return;
+      park_forever();
+    }
     g.res->deadlock = 1;
     end_run_abnormally();
   }
@@ -831,6 +858,7 @@ inline void on_access(uintptr_t a, size_t size, bool w, uint32_t pc) {
   Task* t = tl_task;
   if (!t || !g.active || t->in_rt) return;
   if (a - t->stack_lo < t->stack_sz) return;  // the running task's own stack (and its static TLS)
+  if (!g.cfg.track_memory) return;
   t->in_rt = 1;
   yield_point(t, w ? EV_WRITE : EV_READ, (unsigned)size, pc);
   if (a >= (uintptr_t)&__executable_start && a < (uintptr_t)&_end) g.res->events_by_class[1]++;
@@ -878,11 +906,121 @@ void* task_main(void* arg) {
   return nullptr;
 }
 
+void unsupported(Task* t, const char* what);
+
+// a thread the code under test created: it becomes one more task under the same scheduler
+void* dyn_task_main(void* arg) {
+  Task* t = (Task*)arg;
+  tl_task = t;
+  t->in_rt = 1;
+  __atomic_add_fetch(&g.ready, 1, __ATOMIC_RELEASE);
+  futex(&g.ready, FUTEX_WAKE_PRIVATE, 1 << 30);
+  park(&t->wake);
+  yield_point(t, EV_START, 0, 0);
+  t->in_rt = 0;
+  void* ret = t->ufn(t->uarg);
+  t->in_rt = 1;
+  t->uret = ret;
+  yield_point(t, EV_EXIT, 0, 0);
+  t->state = T_DONE;
+  t->vc[t->id]++;
+  wake_waiters((uintptr_t)t | 2);
+  bool all_done = true;
+  for (int i = 0; i < g.ntasks; ++i)
+    if (g.tasks[i].state != T_DONE) all_done = false;
+  if (all_done) {
+    g.active = 0;
+    unpark(&g.ctl_wake);
+  } else {
+    forced_switch(t, 2);
+  }
+  // What a real thread does on its way out (thread-local destructors, the allocator giving back its
+  // per-thread structures) must not overlap other tasks, or the state of the heap would depend on
+  // real timing: it happens while the joiner holds the baton and waits in the real pthread_join.
+  // A thread nobody joins stays parked until the process ends.
+  for (;;) {
+    if (__atomic_load_n(&t->exit_gate, __ATOMIC_ACQUIRE)) break;
+    futex(&t->exit_gate, FUTEX_WAIT_PRIVATE, 0);
+  }
+  return ret;
+}
+
+int create_dynamic_task(Task* creator, pthread_t* th, void* (*fn)(void*), void* arg, uint32_t pc) {
+  creator->in_rt = 1;
+  yield_point(creator, EV_MUTEX, 11, pc);
+  // a slot whose thread has finished and been joined (or detached) serves the next thread; its
+  // clock component continues, i.e. the new thread counts as a continuation of the old one
+  int id = -1;
+  uint32_t epoch0 = 0;
+  for (int i = g.cfg.ntasks; i < g.ntasks && g.ntasks >= kMaxTasks; ++i) {  // only once all slots have been used
+    Task& o = g.tasks[i];
+    if (o.dynamic && o.state == T_DONE && (o.reaped || o.detached)) {
+      id = i;
+      epoch0 = o.vc[i];
+      break;
+    }
+  }
+  bool fresh = id < 0;
+  if (fresh) {
+    if (g.ntasks >= kMaxTasks) unsupported(creator, "more than 64 live threads in one run");
+    id = g.ntasks;
+  }
+  Task& t = g.tasks[id];
+  __real_memset(&t, 0, sizeof t);
+  t.id = id;
+  t.state = T_RUN;
+  t.dynamic = 1;
+  t.parent = creator->id;
+  t.ufn = fn;
+  t.uarg = arg;
+  t.cur_op = creator->cur_op;  // its events are attributed to the operation that spawned it
+  __real_memcpy(t.vc, creator->vc, sizeof t.vc);  // spawn edge
+  if (t.vc[id] < epoch0) t.vc[id] = epoch0;
+  t.vc[id]++;
+  creator->vc[creator->id]++;
+  t.prio = g.pct_low--;
+  size_t sz = g.cfg.stack_bytes;
+  char* mem = (char*)mmap(nullptr, sz + 8192, PROT_NONE, MAP_PRIVATE | MAP_ANONYMOUS | MAP_NORESERVE, -1, 0);
+  if (mem == MAP_FAILED || mprotect(mem + 4096, sz, PROT_READ | PROT_WRITE)) die("sim: stack for dynamic thread");
+  t.stack_lo = (uintptr_t)mem + 4096;
+  t.stack_sz = sz;
+  pthread_attr_t at;
+  pthread_attr_init(&at);
+  pthread_attr_setstack(&at, (void*)t.stack_lo, t.stack_sz);
+  int before = __atomic_load_n(&g.ready, __ATOMIC_ACQUIRE);
+  if (fresh) g.ntasks = id + 1;
+  int rc = real_pthread_create(&t.th, &at, dyn_task_main, &t);
+  pthread_attr_destroy(&at);
+  if (rc) {
+    if (fresh) g.ntasks = id;
+    else { t.state = T_DONE; t.reaped = 1; }
+    munmap((void*)(t.stack_lo - 4096), t.stack_sz + 8192);
+    creator->in_rt = 0;
+    return rc;
+  }
+  for (;;) {  // wait (for real, briefly) until the new thread is parked
+    int r = __atomic_load_n(&g.ready, __ATOMIC_ACQUIRE);
+    if (r > before) break;
+    futex(&g.ready, FUTEX_WAIT_PRIVATE, r);
+  }
+  *th = t.th;
+  g.res->dynamic_threads++;
+  creator->in_rt = 0;
+  return 0;
+}
+
+Task* task_of_thread(pthread_t th) {
+  for (int i = 0; i < g.ntasks; ++i)
+    if (g.tasks[i].dynamic && !g.tasks[i].reaped && pthread_equal(g.tasks[i].th, th)) return &g.tasks[i];
+  return nullptr;
+}
+
 void resolve_real() {
   if (g_inited) return;
   g_inited = 1;
   real_pthread_create = (pthread_create_t)dlsym(RTLD_NEXT, "pthread_create");
   real_pthread_join = (pthread_join_t)dlsym(RTLD_NEXT, "pthread_join");
+  real_pthread_detach = (pthread_detach_t)dlsym(RTLD_NEXT, "pthread_detach");
   real_mutex_lock = (mutex_fn_t)dlsym(RTLD_NEXT, "pthread_mutex_lock");
   real_mutex_unlock = (mutex_fn_t)dlsym(RTLD_NEXT, "pthread_mutex_unlock");
   real_mutex_trylock = (mutex_fn_t)dlsym(RTLD_NEXT, "pthread_mutex_trylock");
@@ -1512,10 +1650,17 @@ int pthread_once(pthread_once_t* oc, void (*fn)(void)) {
   yield_point(t, EV_ONCE, 0, PC());
   SyncObj* s = sync_lookup((uintptr_t)oc, SK_ONCE, true);
   for (;;) {
-    if (s->state == G_DONE || *oc == 2 /* glibc: __PTHREAD_ONCE_DONE */) {
+    if (*oc == 2 /* glibc: __PTHREAD_ONCE_DONE */) {
       acquire(t, s);
       t->in_rt = 0;
       return 0;
+    }
+    if (s->state == G_DONE) {
+      // the control word says "not done": this is a new once-object in recycled memory (e.g. the
+      // shared state of a later std::async at the address of an earlier one)
+      s->state = 0;
+      s->owner = -1;
+      __real_memset(s->vc, 0, sizeof s->vc);
     }
     if (s->state == G_INPROGRESS) {
       if (s->owner == t->id) unsupported(t, "recursive pthread_once");
@@ -1541,9 +1686,37 @@ int pthread_once(pthread_once_t* oc, void (*fn)(void)) {
 
 int pthread_create(pthread_t* th, const pthread_attr_t* at, void* (*fn)(void*), void* arg) {
   Task* t = live_task();
-  if (t) unsupported(t, "pthread_create inside a simulated operation");
+  if (t) return create_dynamic_task(t, th, fn, arg, PC());
   if (!real_pthread_create) resolve_real();
   return real_pthread_create(th, at, fn, arg);
+}
+
+int pthread_join(pthread_t th, void** ret) {
+  Task* t = live_task();
+  if (!real_pthread_join) resolve_real();
+  if (!t) return real_pthread_join(th, ret);
+  Task* target = task_of_thread(th);
+  if (!target) return real_pthread_join(th, ret);
+  t->in_rt = 1;
+  yield_point(t, EV_MUTEX, 12, PC());
+  while (target->state != T_DONE) block_on(t, (uintptr_t)target | 2);
+  vc_join(t->vc, target->vc);  // join edge
+  __atomic_store_n(&target->exit_gate, 1, __ATOMIC_RELEASE);
+  futex(&target->exit_gate, FUTEX_WAKE_PRIVATE, 1);
+  int rc = real_pthread_join(th, ret);  // the real thread is past its last simulated event
+  munmap((void*)(target->stack_lo - 4096), target->stack_sz + 8192);
+  target->reaped = 1;
+  t->in_rt = 0;
+  return rc;
+}
+
+int pthread_detach(pthread_t th) {
+  Task* t = live_task();
+  if (!real_pthread_detach) resolve_real();
+  if (t) {
+    if (Task* target = task_of_thread(th)) target->detached = 1;
+  }
+  return real_pthread_detach(th);
 }
 
 // ---- condition variables: wait releases the (modelled) mutex and blocks until signalled ----
